@@ -16,6 +16,8 @@ static void one_read_all_file(const string& payload, const io::Plan& p, bool cyc
   io::Cookie ck;
   FILE* f = io::open_cookie(&ck, payload, p, cycle, bufmode);
   Outcome o = run([&] { return phosg::read_all(f); });
+  C->count("delivery-plans-run:read_all(FILE*)");
+  C->count("cookie-read-callbacks:read_all(FILE*)", ck.calls);
   judge("read_all_file", "cookie", shape, payload, o, [&] { return cookie_case("read_all(FILE*)", ck, p, cycle, bufmode); });
   fclose(f);
 }
@@ -188,6 +190,7 @@ static void judge_fgets(FILE* f, const string& payload, const char* kind, const 
     what = e.what();
   }
   C->evaluations += expect.size() + 1;
+  C->count("streams-run:fgets");
   size_t i = 0;
   while (i < got.size() && i < expect.size() && got[i] == expect[i]) i++;
   if (i == got.size() && (threw || i == expect.size())) {
